@@ -625,7 +625,7 @@ func (j *judge) imageGroup(path, ctx string, bp *para, ob []block, k int, scope 
 		for ; cur < sp.s; cur++ {
 			exp = append(exp, eat{a: e.txt[cur]})
 		}
-		exp = append(exp, eat{pic: "sha1:" + hashOf(j.c.Data.Imgs[sp.name].Bytes())})
+		exp = append(exp, eat{pic: "sha1:" + hashOf(imgBytes(j.c.Data.Imgs[sp.name]))})
 		cur = sp.e
 	}
 	for ; cur < len(e.txt); cur++ {
